@@ -293,6 +293,8 @@ package jparse
 //@   atcall[C04:left-assoc] parser.parseExpression#0 requires callee_rbp == bps[t.Type]
 //@ func parseSort
 //@   implements functype:led
+//@   props C08 C13
+//@   atstore[C13:direction-per-term] jparse.SortTerm.Dir requires value == (typ == typeLess ? SortAscending : (typ == typeGreater ? SortDescending : SortDefault))
 //@   loop 0 invariant pOK(p) && mu(p) <= old(mu(p)) && (terms == nil || fresh(terms)) && frame(terms)
 //@   loop 0 decreases mu(p)
 //@ func parseDot
@@ -526,7 +528,6 @@ package jparse
 //@   recovers *Error
 
 //@ func Parse$1
-//@   requires root != nil && err != nil
 //@   ensures true
 
 // ---------------------------------------------------------------------------
